@@ -36,7 +36,7 @@ class C06(Spec):
                 "Nun.C06_incremental_roundtrip", "Nun.snapFold_inc", "Nun.loadLoop_recs", "Nun.pwrite_record",
                 "Nun.C06_snapshot_restores_after_any_history", "Nun.C06_history_inv", "Nun.C06_reclaim_inv", "Nun.restart_inv", "Nun.J_fresh", "Nun.load_clean"]
     rule = ("all sequences of length L over {set (values of 0, 1, 6 multi-byte and 300 bytes), set-safe, remove, increment, snapshot false, snapshot true, restart} x keys, "
-            "plus every sequence of length 6 (7) over {set, increment, remove, incremental snapshot} on ONE key followed by snapshot + restart, plus seeded random sequences up to length 40 over 3 keys and 2 databases; the snapshot files are compared byte for byte with the Lean model after every snapshot and the reloaded dataset with the model's loader; "
+            "plus version conflicts on new and on persisted keys of an ARBITER database (with and without the arbiter's answer) followed by snapshots of both kinds and a restart, plus every sequence of length 6 (7) over {set, increment, remove, incremental snapshot} on ONE key followed by snapshot + restart, plus seeded random sequences up to length 40 over 3 keys and 2 databases; the snapshot files are compared byte for byte with the Lean model after every snapshot and the reloaded dataset with the model's loader; "
             "oracle: dataset captured at each completed snapshot vs the dataset after the next restart. non-trivial = at least one snapshot that writes something and one restart; distinct by trace hash")
 
     def corpus(self):
@@ -76,6 +76,16 @@ class C06(Spec):
             for x in seq: c += x
             c += ["C 1 snapshot false", "SNAP", "RESTART"] + AFTER + ["C 1 get-safe n", "C 1 keys"]
             cases.append(c)
+        # an ARBITER database: a version conflict parks the key at the in-conflict version and records the conflict under a key of
+        # its own — entries written by the conflict code, not by set_value, go through the snapshot writer too
+        ARB = ["RESET", "SESS 1", "C 1 auth adm pw", "C 1 create-db t tok arbiter", "C 1 use-db t tok", "SESS 3", "C 3 use-db t tok", "C 3 arbiter",
+               "C 1 set a 1", "C 1 set bb 22", "C 1 set ccc 333", "C 1 snapshot false", "SNAP"]
+        conflicts = [["C 1 set-safe nw 0 x", "C 1 set-safe nw 0 y"], ["C 1 set-safe a 0 stale"], ["C 1 set nw 1", "C 1 set-safe nw 0 z", "C 1 set nw again"],
+                     ["C 1 set-safe a 0 s1", "C 1 set-safe a 0 s2"], ["C 1 set-safe nw 0 x", "C 1 set-safe nw 0 y", "RESOLVE 3 0 win"]]
+        for cf in conflicts:
+            for mid in ([], ["C 1 snapshot false", "SNAP"], ["C 1 set bb 23"]):
+                for fin in (["C 1 snapshot false", "SNAP"], ["C 1 snapshot true", "SNAP"]):
+                    cases.append(ARB + cf + mid + fin + ["RESTART"] + AFTER + ["C 1 get-safe a", "C 1 get-safe nw", "C 1 keys"])
         rng = core.XorShift(seed)
         al2 = alphabet(("a", "bb", "c"))
         for _ in range(500 if tier == "quick" else 8000):
